@@ -4,6 +4,7 @@ import (
 	"fmt"
 	"go/token"
 	"go/types"
+	"strings"
 
 	"golang.org/x/tools/go/ssa"
 
@@ -406,16 +407,44 @@ func runC12(c *an.Ctx) {
 		// conditions on SkipRoot: a load of the field, or a local it was hoisted into
 		isSkip := func(v ssa.Value) bool { return c12LoadsField(v, fSkip) }
 		nSkipTests := 0
-		skipEdges := func(want bool) an.EdgeSet {
-			return an.CondEdges(fn, func(atom ssa.Value) (bool, bool) {
-				if b, ok := atom.Type().Underlying().(*types.Basic); !ok || b.Kind() != types.Bool || !isSkip(atom) {
-					return false, false
-				}
-				nSkipTests++
-				return want, !want
-			})
+		skipAtom := func(atom ssa.Value) bool {
+			if b, ok := atom.Type().Underlying().(*types.Basic); !ok || b.Kind() != types.Bool || !isSkip(atom) {
+				return false
+			}
+			nSkipTests++
+			return true
 		}
-		eSkipT, eSkipF := skipEdges(true), skipEdges(false)
+		// classifiers of the two atoms: "SkipRoot" (true when the flag is set) and
+		// "depth == 0" for a given depth value; facts are built from them and
+		// evaluated with an.FactEdges, which also understands the conditions when
+		// they are carried in boolean values (`bypass := SkipRoot && depth == 0`)
+		depthAtom := func(d ssa.Value, atom ssa.Value) (isZeroOnTrue, isZeroOnFalse bool) {
+			bo, ok := atom.(*ssa.BinOp)
+			if !ok {
+				return false, false
+			}
+			var x, k ssa.Value
+			switch {
+			case an.IsIntConst(0)(bo.Y):
+				x, k = bo.X, bo.Y
+			case an.IsIntConst(0)(bo.X):
+				x, k = bo.Y, bo.X
+			default:
+				return false, false
+			}
+			_ = k
+			if !an.SameVal(x, d) {
+				return false, false
+			}
+			switch bo.Op {
+			case token.EQL:
+				return true, false
+			case token.NEQ:
+				return false, true
+			}
+			return false, false
+		}
+		eSkipT := an.FactEdges(fn, func(a ssa.Value) (bool, bool) { return skipAtom(a), false })
 		blockedVisits := map[ssa.Instruction]bool{}
 		for _, v := range visits {
 			blockedVisits[v] = true
@@ -423,9 +452,16 @@ func runC12(c *an.Ctx) {
 		for _, v := range visits {
 			nV++
 			d := v.Call.Args[1]
-			isD := func(x ssa.Value) bool { return an.SameVal(x, d) }
-			eD0, eDn0 := an.TokRelEdges(fn, isD, an.IsIntConst(0), token.EQL), an.TokRelEdges(fn, isD, an.IsIntConst(0), token.NEQ)
-			c.Check(nSkipTests > 0 && an.GuardedBy(fn, nil, v, eSkipF.Union(eDn0)), "O3", "R-SIB", name, "visit<=!SkipRoot||depth!=0", v.Pos(),
+			eD0 := an.FactEdges(fn, func(a ssa.Value) (bool, bool) { return depthAtom(d, a) })
+			// the disjunction !SkipRoot || depth != 0 as one fact
+			eNoBypass := an.FactEdges(fn, func(a ssa.Value) (bool, bool) {
+				if skipAtom(a) {
+					return false, true
+				}
+				z1, z2 := depthAtom(d, a)
+				return z2, z1
+			})
+			c.Check(nSkipTests > 0 && an.GuardedBy(fn, nil, v, eNoBypass), "O3", "R-SIB", name, "visit<=!SkipRoot||depth!=0", v.Pos(),
 				"the visit callback is only invoked where !SkipRoot or depth != 0",
 				"the visit callback can be invoked for the root although SkipRoot is set (or SkipRoot is not consulted at all by this walk)")
 			for _, s := range w.sites {
@@ -438,6 +474,9 @@ func runC12(c *an.Ctx) {
 					"links are fetched without asking the visit callback only where SkipRoot && depth == 0",
 					"getLinks can be reached without the visit callback having been asked on a path that is not (SkipRoot && depth == 0): nodes are fetched/descended although the callback was never consulted")
 				if an.Dominates(v, g) || an.Reaches(fn, v, g, nil, nil) {
+					// the value tested before fetching: the visit result, possibly merged
+					// with the bypass condition (constant true, or a boolean built from the
+					// SkipRoot flag and depth == 0 — whose use is policed by the rule above)
 					visitTrue := an.CondEdges(fn, func(atom ssa.Value) (bool, bool) {
 						saw := false
 						ok, _ := an.AllRootsX(atom, nil, func(r ssa.Value) bool {
@@ -445,8 +484,14 @@ func runC12(c *an.Ctx) {
 								saw = true
 								return true
 							}
-							k, isK := an.ConstOf(r)
-							return isK && k.String() == "true"
+							if _, isK := an.ConstOf(r); isK {
+								return true
+							}
+							if isSkip(r) {
+								return true
+							}
+							z1, z2 := depthAtom(d, r)
+							return z1 || z2
 						})
 						return ok && saw, false
 					})
@@ -791,7 +836,18 @@ func c12DepthOK(p *an.Prog, fn *ssa.Function, d ssa.Value) (bool, string) {
 	for root.Parent() != nil {
 		root = root.Parent()
 	}
-	family := an.WithClosures(root)
+	_ = root
+	// struct fields are abstract locations of the whole package (a record type may
+	// be declared at package level and filled by the caller of the walk)
+	var family []*ssa.Function
+	if fn.Pkg != nil {
+		family = p.PkgFuncs(strings.TrimPrefix(fn.Pkg.Pkg.Path(), an.Mod+"/"))
+	} else {
+		family = an.WithClosures(root)
+	}
+	if fn.Pkg == nil && root.Pkg != nil {
+		family = p.PkgFuncs(strings.TrimPrefix(root.Pkg.Pkg.Path(), an.Mod+"/"))
+	}
 	flow := func(v ssa.Value, seen map[ssa.Value]bool, roots *[]ssa.Value) { c12Flow(p, family, v, seen, roots) }
 	var roots []ssa.Value
 	flow(d, map[ssa.Value]bool{}, &roots)
